@@ -40,7 +40,8 @@ def run_demo(tree, demo):
 def run_suite(tree):
     nbc = tempfile.mkdtemp(prefix="nbc-")
     xml = os.path.join(nbc, "junit.xml")
-    env = dict(os.environ, PYTHONPATH=tree, NUMBA_CACHE_DIR=nbc)
+    # the suite leaves mkstemp files behind: give it a private TMPDIR that is removed afterwards
+    env = dict(os.environ, PYTHONPATH=tree, NUMBA_CACHE_DIR=nbc, TMPDIR=nbc)
     subprocess.run(["/venv/bin/python", "-m", "pytest", "-q", "-p", "no:cacheprovider", "--timeout=900",
                     "--continue-on-collection-errors", f"--junitxml={xml}", "dataiter/test"],
                    cwd=tree, env=env, capture_output=True, text=True, timeout=3600)
